@@ -210,7 +210,11 @@ def gen_nexus_doc(rng):
             names = ["%d" % (i + 1) for i in range(k)] if rng.random() < 0.8 else ["x%d" % i for i in range(k)]
             token_of = {pool[t]: nm for t, nm in zip(chosen, names)}
             doc += "  " + kc("TRANSLATE") + "\n" + ",\n".join("    %s %s" % (nm, esc(pool[t])) for t, nm in zip(chosen, names))
-            doc += rng.choice([";\n", "\n  ;\n", ",;\n" if rng.random() < 0.1 else ";\n"])
+            if rng.random() < 0.03:
+                doc += ",;\n"
+                feats["translate_trailing_comma"] = True
+            else:
+                doc += rng.choice([";\n", "\n  ;\n", ";\n"])
             feats["translate"] = True
         stmts = gen_statements(rng, ntrees, pool, ntaxa, token_of)
         for s in stmts:
@@ -609,7 +613,7 @@ def is_err(x):
 
 UNATTACHED_ERRORS = ("TooManyTaxaError", "UndefinedBlockError", "MultipleBlockWithSameTitleError", "LinkRequiredError")
 INVALID_FEATURES = ("ntax_short", "no_dimensions", "bad_header", "ends_after_eq", "no_end", "late_statement",
-                    "missing_semicolon", "missing_link", "fixed")
+                    "missing_semicolon", "missing_link", "translate_trailing_comma", "fixed")
 
 
 def is_valid_doc(case):
